@@ -306,7 +306,7 @@ func (c *tlvCheck) checkStream(space string, b []byte, lc *local, entryMask int)
 			pre := "tlv:" + e.name + ":" + cfgName + ":"
 			c.info("%s(%s records) on %x -> err=%v panic=%q; reference: canonical=%v %s", e.name, cfgName, b, err, pan, reason == "", reason)
 			if pan != "" {
-				lc.outcomes["panic"]++
+				lc.outcomes["VIOL-panic"]++
 				c.violation(pre+"panic:"+reasonOr(reason, "canonical"),
 					fmt.Sprintf("%s panicked (%s) on stream %x", e.name, pan, b), rc)
 				continue
@@ -925,6 +925,13 @@ func prims() []prim {
 		}, func(v []byte) bool {
 			_, n, min := bytemut.ReadBigSize(v)
 			return n == len(v) && n > 0 && min
+		}},
+		{"bigsize32", func() (*tlv.Stream, func() *tlv.Stream) {
+			var x uint32
+			return tlv.MustNewStream(tlv.MakeBigSizeRecord(1, &x)), func() *tlv.Stream { return tlv.MustNewStream(tlv.MakeBigSizeRecord(1, &x)) }
+		}, func(v []byte) bool {
+			val, n, min := bytemut.ReadBigSize(v)
+			return n == len(v) && n > 0 && min && val <= 0xffffffff
 		}},
 	}
 }
